@@ -27,6 +27,7 @@ CONFIGS = {
     "AU-rev": [("U", "B", 5, ["N3", "O4", "O2", "C1'", "N1"]), ("A", "A", 9, ["N1", "N6", "N7", "C1'", "N9"])],
     "GG-hoog": [("G", "A", 3, ["N1", "N2", "O6", "N7", "C1'", "N9"]), ("G", "A", 4, ["N1", "O6", "N7", "C1'", "N9"])],
     "AG-sugar": [("A", "A", 1, ["N3", "C2", "O2'", "C1'", "N9"]), ("G", "A", 7, ["N2", "N3", "O2'", "C1'", "N9"])],
+    "GU-mixed": [("G", "A", 1, ["C8", "N7", "C1'", "N9"]), ("U", "A", 2, ["OP1", "O2'", "C1'", "N1"])],
     "bph-G": [("G", "A", 1, ["N1", "N2", "C8", "N3", "C2"]), ("U", "A", 2, ["OP1", "O2'"])],
     "bph-C": [("C", "A", 5, ["N4", "C5", "N3", "C4"]), ("A", "A", 3, ["OP1", "O5'"])],
     "bph-A": [("A", "B", 1, ["N6", "C2", "N1", "C6"]), ("G", "A", 1, ["OP2", "O2'"])],
@@ -133,6 +134,17 @@ def explore(cfg_name, order="fwd", models=None, model_arg=None):
                     v = near.setdefault(key, z3.Bool(f"near_{key[0][0]}{key[0][1]}_{key[1][0]}{key[1][1]}"))
                     if bool(SBool(eng, v)):
                         out.append((i, j))
+            if order == "sym":
+                # the real KD-tree returns a *set* of index pairs: any processing order is possible.  The cross-residue candidates in
+                # range are permuted by a symbolic choice (all permutations while <= 3 of them, else forward / reversed)
+                cross = [p for p in out if atom_of_xyz[self.pts[p[0]]][0] != atom_of_xyz[self.pts[p[1]]][0]
+                         and kind_of(atom_of_xyz[self.pts[p[0]]]) != kind_of(atom_of_xyz[self.pts[p[1]]])]
+                rest = [p for p in out if p not in cross]
+                perms = list(itertools.permutations(range(len(cross)))) if len(cross) <= 3 else [tuple(range(len(cross))), tuple(reversed(range(len(cross))))]
+                if len(perms) > 1:
+                    c = eng.int(f"kdorder{len(cross)}", 0, len(perms) - 1)
+                    cross = [cross[i] for i in perms[c.concretize()]]
+                return rest + cross
             return out if order == "fwd" else list(reversed(out))
     cur = {}
 
